@@ -3,13 +3,14 @@ from props import job
 _CM = "TestVerifC07CircuitMap"
 _SW = "TestVerifC07Switch"
 _RACE = "TestVerifC07Race"
+_LC = "TestVerifC07LinkLifecycle"
 
 PROP = dict(
     level="exploration",
     technique="rapid state machines vs reference models (circuit map on bbolt with a write-fault wrapper; "
               "real Switch with harness-played links and a barrier command instead of waits); "
               "goroutine race checked for linearizability against the model",
-    rule=("Three tests. (1) TestVerifC07CircuitMap: one case = one generated op sequence (5..50 ops: "
+    rule=("Four tests. (1) TestVerifC07CircuitMap: one case = one generated op sequence (5..50 ops: "
           "CommitCircuits batches with duplicates, OpenCircuits, TrimOpenCircuits, CloseCircuit, FailCircuit, "
           "DeleteCircuits, injected write failures, restarts with generated closed/pending/open channels, "
           "next-local-HTLC indexes and pending resolution messages) over the real circuit map on a bbolt file; "
@@ -20,6 +21,17 @@ PROP = dict(
           "against a real Switch; non-trivial = a duplicate add (same lifetime or after a switch restart), a "
           "duplicate response, a response replayed after the incoming link resolved the HTLC, or a re-sent "
           "local payment attempt was presented. "
+          "(2b) TestVerifC07LinkLifecycle: the same world with a link life cycle: one case = 8..60 actions, 60 % "
+          "of them drawn among the actions that can currently advance some HTLC; links are added lazily after "
+          "every switch (re)start, removed and re-added (new link object) at generated points; Switch.Start "
+          "re-forwards the un-acked settles/fails of the outgoing channels' forwarding packages (written and "
+          "acked by the harness as lnwallet does) and stored contract resolution messages; responses relayed "
+          "while the incoming channel has no link yet are parked by the mail orchestrator and must be in the "
+          "mailbox after AddLink (not lost), un-acked responses are handed over again at a relink (legitimate), "
+          "and once the incoming link committed and acked a response (forwarding-package ack, DeleteCircuits, "
+          "MailBox.AckPacket) no settle/fail for that HTLC may be handed over again at any later AddLink. "
+          "Non-trivial = a parked response was handed over at AddLink, a response was relayed while the link "
+          "was removed, or a link was re-added while it had an un-acked response / after it had acked one. "
           "(3) TestVerifC07Race: 2-3 goroutines on one circuit; non-trivial = >=2 calls competed for the "
           "response slot of the same live circuit. Distinct = distinct op logs."),
     level_note=("The race part explores only the schedules the Go runtime happens to produce (weak by "
@@ -36,6 +48,15 @@ PROP = dict(
         "sourceRef; an ADD is acked only by committing a response whose sourceRef equals it; a restarted "
         "incoming link replays exactly its un-acked ADDs",
         "a remote peer answers only HTLCs that reached a commitment (outgoing id below the committed index)",
+        "link life cycle: the harness link does at Start what channelLink.Start/htlcManager do "
+        "(TrimOpenCircuits to the committed index, ResetMessages, ResetPackets, replay of un-acked ADDs in 70 % "
+        "of the starts), at Stop what channelLink.Stop does (ResetPackets), on commit of a response what "
+        "lnwallet + ackDownStreamPackets do (AckSettleFails of the packet's destRef, DeleteCircuits, AckPacket); "
+        "'handed to the link' is read off the mailbox's un-acked response list under the mailbox lock (what the "
+        "reset courier hands over), not off the outbox channel, so no waits are needed; only a registered link "
+        "forwards/accepts/commits/responds; contract resolution messages are generated only for committed "
+        "outgoing HTLCs of channels that currently have no link (channel went to chain); forwarding packages "
+        "are never garbage-collected",
         "write failures are injected as a failing bbolt transaction of CommitCircuits/OpenCircuits/"
         "DeleteCircuits/NewCircuitMap; TrimOpenCircuits write failures are not injected (no documented "
         "rollback contract)",
@@ -48,6 +69,7 @@ PROP = dict(
         quick=[
             job("htlcswitch", "^TestVerifC07CircuitMap$", [_CM], 800, shards=4),
             job("htlcswitch", "^TestVerifC07Switch$", [_SW], 500, shards=4),
+            job("htlcswitch", "^TestVerifC07LinkLifecycle$", [_LC], 400, shards=4),
             job("htlcswitch", "^TestVerifC07Race$", [_RACE], 200, shards=2),
         ],
         thorough=[
@@ -55,12 +77,16 @@ PROP = dict(
                 env=dict(VERIF_C07_STEPS=70)),
             job("htlcswitch", "^TestVerifC07Switch$", [_SW], 2000, shards=6, timeout=900,
                 env=dict(VERIF_C07_SWSTEPS=60)),
+            job("htlcswitch", "^TestVerifC07LinkLifecycle$", [_LC], 2000, shards=6, timeout=900,
+                env=dict(VERIF_C07_LCSTEPS=80)),
             job("htlcswitch", "^TestVerifC07Race$", [_RACE], 800, shards=4, timeout=900, race=True),
             # the same machines on lnd's SQL-backed kvdb (sqlbase over sqlite)
             job("htlcswitch", "^TestVerifC07CircuitMap$", [_CM], 300, shards=8, timeout=1200,
                 tags="verif kvdb_sqlite", env=dict(VERIF_C07_STEPS=50)),
             job("htlcswitch", "^TestVerifC07Switch$", [_SW], 150, shards=6, timeout=1200,
                 tags="verif kvdb_sqlite", env=dict(VERIF_C07_SWSTEPS=40)),
+            job("htlcswitch", "^TestVerifC07LinkLifecycle$", [_LC], 150, shards=6, timeout=1200,
+                tags="verif kvdb_sqlite", env=dict(VERIF_C07_LCSTEPS=45)),
         ],
     ),
 )
